@@ -17,8 +17,20 @@ Proof.
 Qed.
 
 Lemma ram_fn_doc : forall m w r, ram_fn m w r = doc_ram_fn m w r.
-Proof. intros m w r. unfold ram_fn, doc_ram_fn, ram16_combine. destruct r as [[[z|s]|]|e|]; try reflexivity.
-  destruct w; [|reflexivity]. destruct (z mod 65536 =? 65535); [reflexivity|]. do 3 f_equal. apply Z.add_comm. Qed.
+Proof.
+  intros m w r. unfold ram_fn, doc_ram_fn. destruct r as [[[z|s]|]|e|]; try reflexivity.
+  unfold ram_address_space. set (a := z mod 65536).
+  assert (0 <= a < 65536) as R by (apply Z.mod_pos_bound; lia).
+  unfold accessor_read, ram_size, ram_word_len, ram_byte_len, ram16_combine.
+  destruct w.
+  - destruct (a =? 65535) eqn:E.
+    + apply Z.eqb_eq in E. rewrite E. change (Z.to_nat (Z.min (65535 + 2) 65536 - 65535)) with 1%nat. reflexivity.
+    + apply Z.eqb_neq in E. replace (Z.min (a + 2) 65536) with (a + 2) by lia.
+      replace (a + 2 - a) with 2 by lia. change (Z.to_nat 2) with 2%nat. cbn [read_cells].
+      do 3 f_equal. apply Z.add_comm.
+  - replace (Z.min (a + 1) 65536) with (a + 1) by lia. replace (a + 1 - a) with 1 by lia.
+    change (Z.to_nat 1) with 1%nat. reflexivity.
+Qed.
 
 Lemma eval_g_ext : forall rf rf' m en, (forall m w r, rf m w r = rf' m w r) ->
   forall e, eval_g rf m en e = eval_g rf' m en e.
